@@ -78,13 +78,13 @@ func genSteer(r *rand.Rand, n int, tier string) []Case {
 			// that id - the purge must not take the new item for the expired one
 			what := pick(r, "fact", "rule").(string)
 			if what == "fact" {
-				setup = []interface{}{map[string]interface{}{"loc": "L0", "op": "addfact", "id": "i0", "expires_in": 1.0, "fact": fact()}}
+				setup = []interface{}{map[string]interface{}{"loc": "L0", "op": "addfact", "id": "i0", "expires_in": 2.0, "fact": fact()}}
 				a = pick(r, map[string]interface{}{"loc": "L0", "op": "getfact", "id": "i0"},
 					map[string]interface{}{"loc": "L0", "op": "search", "inherited": false, "pattern": map[string]interface{}{"k": "?v"}}).(map[string]interface{})
 				bs = []interface{}{map[string]interface{}{"loc": "L0", "op": "addfact", "id": "i0", "fact": fact()},
 					map[string]interface{}{"loc": "L0", "op": "getfact", "id": "i0"}}
 			} else {
-				setup = []interface{}{map[string]interface{}{"loc": "L0", "op": "addrule", "id": "ri0", "expires_in": 1.0, "rule": rulePat(map[string]interface{}{"k": "?v"})}}
+				setup = []interface{}{map[string]interface{}{"loc": "L0", "op": "addrule", "id": "ri0", "expires_in": 2.0, "rule": rulePat(map[string]interface{}{"k": "?v"})}}
 				a = map[string]interface{}{"loc": "L0", "op": "event", "event": map[string]interface{}{"k": "x"}}
 				bs = []interface{}{map[string]interface{}{"loc": "L0", "op": "addrule", "id": "ri0", "rule": rulePat(map[string]interface{}{"k": "?v"})},
 					map[string]interface{}{"loc": "L0", "op": "getfact", "id": "ri0"}}
